@@ -16,7 +16,8 @@ Three exhaustive phases (all bounds in RULE):
          batches equal the sequence predicted from the program alone (k, payload digest, user metadata), for every
          cap/codec/turn count; and for each turn's wire body the overshoot rule below.
  resume  every program x method x (cap in {None, 1}) x codec: all ``(batch, token)`` pairs via ``next_with_token``;
-         for EVERY token: resume on {the same worker (warm), a fresh worker sharing the key (cold, then again = warm),
+         for EVERY token: resume on {the same worker (warm; it has meanwhile started an unrelated decoy stream), a
+         fresh worker sharing the key (cold, then again = warm, also after a decoy stream),
          a worker with a zero-entry call-state cache (cold on every turn)} x {``resume_stream``+iterate,
          ``resume_stream``+``next_with_token``, fresh ``init``+``seek_to_token``}.  Oracle: exactly the remaining
          batches.
@@ -80,6 +81,8 @@ ASSUMPTIONS = [
 
 BIG = 10**9
 MULTI = "requires one data batch per response"
+RUNAWAY = 12  # no program has more than 4 batches: a longer iteration is cut (and then differs from the expectation)
+DECOY = {"steps": [[33, 0, 0], [34, 0, 0], [35, 0, 0], [36, 0, 0], [37, 0, 0]], "noise": 0}
 
 
 # ------------------------------------------------------------------------------------------ programs
@@ -188,7 +191,7 @@ def iterate(w_or_client: Any, method: str, spec: dict[str, Any], hdr: int, clien
         if method == "produce_h":
             h = sess.header
             tag = None if h is None else [h.tag, len(h.blob)]
-        got = [obs(ab) for ab in sess]
+        got = [obs(ab) for ab in itertools.islice(sess, RUNAWAY)]
     return got, logs, tag
 
 
@@ -271,13 +274,19 @@ def collect_tokens(w: Any, method: str, spec: dict[str, Any], hdr: int) -> tuple
     with w.connect() as p:
         sess = call(p, method, spec, hdr)
         got, toks = [], []
-        while True:
+        while len(got) < RUNAWAY:
             ab, tok = sess.next_with_token()
             if ab is None:
                 break
             got.append(obs(ab))
             toks.append(tok)
     return got, toks
+
+
+def decoy(w: Any) -> None:
+    """Start (and abandon after one batch) an unrelated call-state stream on *w*: a warm worker has served others."""
+    with w.connect() as p:
+        list(itertools.islice(p.produce_cs(spec=json.dumps(DECOY)), 1))
 
 
 def resume_once(w: Any, method: str, spec: dict[str, Any], hdr: int, tok: bytes, via: str) -> list[Any]:
@@ -289,13 +298,13 @@ def resume_once(w: Any, method: str, spec: dict[str, Any], hdr: int, tok: bytes,
             sess = p.resume_stream(method, tok)
         if via == "nwt":
             out = []
-            while True:
+            while len(out) < RUNAWAY:
                 ab, _t = sess.next_with_token()
                 if ab is None:
                     break
                 out.append(obs(ab))
             return out
-        return [obs(ab) for ab in sess]
+        return [obs(ab) for ab in itertools.islice(sess, RUNAWAY)]
 
 
 def run_resume(ctx: Ctx, case: dict[str, Any], sample: bool = False) -> None:
@@ -341,6 +350,8 @@ def run_resume(ctx: Ctx, case: dict[str, Any], sample: bool = False) -> None:
                 if via == "nwt" and bcap not in (None, 1):
                     continue  # a resuming worker that buffers several batches per turn refuses next_with_token by design
                 try:
+                    if mode.endswith("-warm"):
+                        decoy(w)
                     r = resume_once(w, method, spec, hdr, tok, via)
                     err = None
                 except Exception as e:  # noqa: BLE001
